@@ -98,12 +98,17 @@ def _seq_of(cmds, flag=None):
         if flag is not None:
             flag["started"] = True
         out = []
-        for c in cmds:
-            r = yield c
-            if isinstance(c, Command):
-                out.append(r)
-            elif r is not None and flag is not None:
-                flag["aux_bad"] = True
+        try:
+            for c in cmds:
+                r = yield c
+                if isinstance(c, Command):
+                    out.append(r)
+                elif r is not None and flag is not None:
+                    flag["aux_bad"] = True
+        finally:
+            if flag is not None and flag.get("badclose") and len(out) < sum(1 for c in cmds if isinstance(c, Command)):
+                # an ill-behaved sequence: its clean-up wants to send one more command, so close() raises RuntimeError
+                yield [c for c in cmds if isinstance(c, Command)][0]
         return out
     return gen()
 
@@ -336,7 +341,7 @@ class Run:
                         raise
                     res["results"].append(describe_result(r))
             else:
-                flag = {"started": False}
+                flag = {"started": False, "badclose": bool(c.get("badclose"))}
                 seq = _seq_of(items, flag)
                 self.closed_seqs[name] = (seq, flag)
                 seen = []
@@ -509,6 +514,7 @@ def run_scenario(sc):
                         "results": res["results"], "exc": res["exc"], "closed": res["closed"],
                         "done": 1 if (t is not None and t.done()) else 0, "t0": res.get("t0", -1), "t1": res.get("t1", -1),
                         "cancelled": 1 if c.get("_cancelled") else 0, "aux_ok": res.get("aux_ok", 1),
+                        "badclose": 1 if c.get("badclose") else 0,
                         "exceptions": 1 if (c.get("mode") == "sequence" or c.get("exceptions", sc.get("exceptions", True))) else 0})
     try:
         pending = [t for t in asyncio.all_tasks(loop) if not t.done()]
